@@ -46,15 +46,21 @@ structure Maps where
   keyOff : Nat
   sdOff : Nat
   sorted : Bool
+  /-- a signer whose published record belongs to OUTDATED shared data replaces it (`setRecord(id 0)`, the
+  code sets `recordExists` for every record it found) — `false`: it re-signs with `addRecord`, which NNS
+  appends as record #1 while everybody reads record #0 -/
+  replaceOutdated : Bool
 
 /-- the maps of the code under test -/
 def current : Maps :=
   { lo := Generated.DeployFacts.leaderLoopLo, hi := Generated.DeployFacts.leaderLoopHi,
     domOff := Generated.DeployFacts.leaderDomainOff, keyOff := Generated.DeployFacts.leaderKeyOff,
-    sdOff := Generated.DeployFacts.signerDomainOff, sorted := Generated.DeployFacts.appendSorted }
+    sdOff := Generated.DeployFacts.signerDomainOff, sorted := Generated.DeployFacts.appendSorted,
+    replaceOutdated := Generated.DeployFacts.signerReplacesOutdatedRecord }
 
 /-- the maps of the tree before `fix:` bbff1af / 7a46371 (F11, F12): `for i := range committee[1:]` -/
-def beforeFix : Maps := { lo := fun _ => 0, hi := fun n => n - 1, domOff := 0, keyOff := 0, sdOff := 0, sorted := false }
+def beforeFix : Maps :=
+  { lo := fun _ => 0, hi := fun n => n - 1, domOff := 0, keyOff := 0, sdOff := 0, sorted := false, replaceOutdated := true }
 
 /-- `smartcontract.GetMajorityHonestNodeCount` -/
 def majority (n : Nat) : Nat := n - (n - 1) / 2
@@ -246,7 +252,9 @@ def Signer.init : Signer := ⟨none, false, false⟩
 inductive SAct
   | none
   | regDom                      -- register designate-committee-notary-<j+sdOff>.bootstrap
-  | setRec (r : SigRec)         -- addRecord / setRecord of that domain
+  | setRec (r : SigRec)         -- record #0 of that domain becomes `r`: `addRecord` on a domain without records, `setRecord(id 0)`
+  | appendRec (r : SigRec)      -- `addRecord` on a domain that has a record: NNS stores `r` as record #1 (or refuses a
+                                -- duplicate); record #0, the only one anybody reads, stays
   deriving DecidableEq, Repr
 
 /-- `SignHashable` + `unshiftChecksum` -/
@@ -264,7 +272,8 @@ def signerPublish (mp : Maps) (j : Nat) (c : Chain) (d : Shared) (s1 : Signer) :
       -- missing record of the NNS domain, needed to be set
       if s1.pendSet then (s1, .none) else ({ s1 with pendSet := true }, .setRec (signRec j d))
     | some r =>
-      if r.cs ≠ d then ({ s1 with pendSet := true }, .setRec (signRec j d))          -- checksum of other shared data
+      if r.cs ≠ d then                                       -- checksum of other (outdated) shared data: sign again
+        ({ s1 with pendSet := true }, if mp.replaceOutdated then .setRec (signRec j d) else .appendRec (signRec j d))
       else if ¬ (r.sig.signer = j ∧ r.sig.over = d) then ({ s1 with pendSet := true }, .setRec (signRec j d))
       else (s1, .none)                                       -- own valid signature is published
 
